@@ -556,17 +556,19 @@ impl SyncResponder {
         provider: &mut impl StorageProvider,
     ) -> Result<usize, SyncError> {
         if self.next_send >= self.to_send.len() {
-            self.state = SyncResponderState::Idle;
             let message = SyncResponseMessage::SyncEnd {
                 session_id: self.session_id()?,
                 max_index: self.message_index as u64,
                 remaining: false,
             };
+            // Only go idle once `SyncEnd` has actually been written, so the
+            // caller can retry with a larger buffer.
             let length = Self::write(target, message)?;
+            self.state = SyncResponderState::Idle;
             return Ok(length);
         }
 
-        let (commands, command_data, next_send) = self.get_commands(provider)?;
+        let (commands, command_data, next_send, resume) = self.get_commands(provider)?;
 
         let message = SyncResponseMessage::SyncResponse {
             session_id: self.session_id()?,
@@ -590,6 +592,7 @@ impl SyncResponder {
             .checked_add(1)
             .assume("message_index overflow")?;
         self.next_send = next_send;
+        self.apply_resume(resume)?;
         Ok(total_length)
     }
 
@@ -617,7 +620,7 @@ impl SyncResponder {
             }
         };
         self.to_send = Self::find_needed_segments(&self.has, storage, buffers)?;
-        let (commands, command_data, next_send) = self.get_commands(provider)?;
+        let (commands, command_data, next_send, resume) = self.get_commands(provider)?;
         let mut length = 0;
         if !commands.is_empty() {
             let message = SyncType::Push {
@@ -645,11 +648,17 @@ impl SyncResponder {
                 .checked_add(1)
                 .assume("message_index increment overflow")?;
             self.next_send = next_send;
+            self.apply_resume(resume)?;
             length = total_length;
         }
         Ok(length)
     }
 
+    /// Gathers the next batch of commands. Does not advance the session:
+    /// returns the new `next_send` and, if the batch stops partway through
+    /// a segment, the `to_send` entry to rewrite so the next batch resumes
+    /// inside that segment. The caller applies both once the message has
+    /// been written, so a failed write loses nothing.
     fn get_commands(
         &mut self,
         provider: &mut impl StorageProvider,
@@ -658,6 +667,7 @@ impl SyncResponder {
             Vec<CommandMeta, COMMAND_RESPONSE_MAX>,
             Vec<u8, MAX_SYNC_MESSAGE_SIZE>,
             usize,
+            Option<(usize, Location)>,
         ),
         SyncError,
     > {
@@ -675,6 +685,7 @@ impl SyncResponder {
         let mut commands: Vec<CommandMeta, COMMAND_RESPONSE_MAX> = Vec::new();
         let mut command_data: Vec<u8, MAX_SYNC_MESSAGE_SIZE> = Vec::new();
         let mut index = self.next_send;
+        let mut resume = None;
         for i in self.next_send..self.to_send.len() {
             if commands.is_full() {
                 break;
@@ -736,15 +747,22 @@ impl SyncResponder {
                     .max_cut
                     .checked_add(sent as u64)
                     .assume("max_cut + sent mustn't overflow")?;
-                *self.to_send.get_mut(i).assume("send index in bounds")? =
-                    Location::new(location.segment, resume_max_cut);
+                resume = Some((i, Location::new(location.segment, resume_max_cut)));
                 index = i;
                 break;
             }
 
             index = i.checked_add(1).assume("index + 1 mustn't overflow")?;
         }
-        Ok((commands, command_data, index))
+        Ok((commands, command_data, index, resume))
+    }
+
+    /// Point a `to_send` entry at the first unsent command of its segment.
+    fn apply_resume(&mut self, resume: Option<(usize, Location)>) -> Result<(), SyncError> {
+        if let Some((i, location)) = resume {
+            *self.to_send.get_mut(i).assume("send index in bounds")? = location;
+        }
+        Ok(())
     }
 
     fn session_id(&self) -> Result<u128, SyncError> {
